@@ -13,7 +13,7 @@ VERIF = os.path.dirname(os.path.dirname(os.path.abspath(__file__)))
 
 NA = {
     "C02": "one-helper tampering across a whole query: every listed mechanism is an interactive async protocol over the gateway; no function-level contract expresses 'some honest helper aborts or the result is unchanged'; the validator's Drop guard needs a live context. Neither Kani (no async multi-party execution; tracing/tokio ICE) nor Verus (cannot import the crate's async/trait stack) reaches it.",
-    "C04": "MAC-checked arithmetic: mac_multiply, Malicious::validate, malicious_reveal, check_zero inline their algebra between send/receive on concrete gateway types; soundness is probabilistic (1/|F|), which a deductive contract cannot state; the only reachable piece (batch record-id arithmetic) is reported under C06.",
+    "C04": "MAC-checked arithmetic: mac_multiply, Malicious::validate, malicious_reveal, check_zero inline their algebra between send/receive on concrete gateway types; soundness is probabilistic (1/|F|), which a deductive contract cannot state; the one local function (MaliciousAccumulator::compute_dot_product_contribution: three-party dot-product identity) was put under a Kani harness and does not close even over the 31-element field (polynomial identity in 6 variables, 15 min timeout); the batch record-id arithmetic is reported under C06.",
     "C05": "shuffle: three-party, PRSS-keyed permutation plus cross-shard resharding (async); the per-row field packing (join_fields/split_fields) is bitvec range copying + GenericArray, which aborts CBMC (bits2expr invariant) and is outside Verus' subset.",
     "C07": "secure circuits: generic in C: Context and reach the network only through SecureMul::multiply; a mock plaintext context compiles against the real trait stack but the SAT instance does not close even for 2-bit operands (async-trait boxing + BitDecomposed heap; measured 10-20 min timeouts); multiplication, reveal, share conversion, PRF and aggregation are interactive.",
     "C16": "batch validation gating: Batcher embeds tokio::sync::watch and tracing events in its synchronous core; both trigger a kani-compiler ICE (intrinsics.rs:243, also with tracing max_level_off); Verus cannot import either; the async half is a schedule property.",
